@@ -39,11 +39,22 @@ pub fn check_value(v: &RVal, acc: &mut Acc) {
     if buf != got {
         acc.vio("encode:write_to_vec!=to_vec", || desc("write_to_vec", &hex(&buf)));
     }
+    {
+        let lv = guard(|| { let l = jsonb::LazyValue::from(val.clone()); let mut w = vec![0xAA]; l.write_to_vec(&mut w); (l.to_vec(), w) });
+        match lv {
+            Ok((tv, w)) => {
+                if tv != expect || w.len() < 1 || w[1..] != expect[..] {
+                    acc.vio("encode:LazyValue::Value-bytes-differ", || desc("LazyValue::from(value).to_vec / write_to_vec", &hex(&tv)));
+                }
+            }
+            Err(p) => acc.vio(&format!("encode:LazyValue:{}", panic_class(&p)), || desc("LazyValue", &p.msg)),
+        }
+    }
     for (name, r) in [
-        ("parse_jsonb", guard(|| jsonb::parse_jsonb(&expect).map(|x| (from_value_raw(&x), x.to_vec(), x == val)))),
-        ("from_slice", guard(|| jsonb::from_slice(&expect).map(|x| (from_value_raw(&x), x.to_vec(), x == val)))),
+        ("parse_jsonb", guard(|| jsonb::parse_jsonb(&expect).map(|x| (from_value_raw(&x), x.to_vec(), x == val && val == x)))),
+        ("from_slice", guard(|| jsonb::from_slice(&expect).map(|x| (from_value_raw(&x), x.to_vec(), x == val && val == x)))),
         // the lazy reader handed the same bytes: the tree it yields and the bytes it writes back
-        ("parse_lazy_value", guard(|| jsonb::parse_lazy_value(&expect).map(|l| { let t = l.to_value().into_owned(); (from_value_raw(&t), l.to_vec(), t == val) }))),
+        ("parse_lazy_value", guard(|| jsonb::parse_lazy_value(&expect).map(|l| { let t = l.to_value().into_owned(); (from_value_raw(&t), l.to_vec(), t == val && val == t) }))),
     ] {
         match r {
             Err(p) => acc.vio(&format!("decode:{}:{}", name, panic_class(&p)), || desc(name, &p.msg)),
